@@ -1,5 +1,311 @@
-"""thorough tier: self-test corpus (violating and benign variants) - see DESIGN 3.4"""
+"""thorough tier: self-test of the checker (DESIGN 3.4).
+
+For the property under check, a corpus of *violating* variants (each must make the check fire) and *benign* variants (each
+must leave it silent) is generated from the CURRENT tree and analysed in scratch copies on all cores:
+
+  * operator mutants: small source rewrites (regex operators below) - each names the properties whose check must fire;
+  * stored patches: /verif/seeded/*/patch.diff (changes by independent agents, confirmed to break a property) with the
+    detections recorded in their meta.json, /verif/selftest/prefix/*.diff (the repaired defects, re-introduced),
+    /verif/benign/*/patch.diff (behaviour-preserving refactorings, confirmed harmless);
+  * computed benign variants: whole-package ast round trip (drops comments, changes every line number), renaming of locals.
+
+A variant whose patch no longer applies to the current tree is skipped and counted.  A corpus failure on a tree whose base
+check is clean means the *checker* is wrong: reported as ANALYSIS-ERROR (exit 2), never as a violation of the property.
+"""
+from __future__ import annotations
+
+import ast
+import concurrent.futures as cf
+import json
+import os
+import re
+import shutil
+import subprocess
+import sys
+import tempfile
+from typing import Dict, List, Optional, Tuple
+
+HERE = os.path.dirname(os.path.dirname(os.path.abspath(__file__)))
+PKG = 'src/traffic_weaver/'
+
+# (id, file, regex, replacement, properties whose check must fire)
+OPERATORS: List[Tuple[str, str, str, str, List[str]]] = [
+    ('kernel-2dp', 'match.py', r'y_hat = 2 \* delta_p /', 'y_hat = delta_p /', ['C01', 'C02']),
+    ('kernel-rect-w', 'match.py', r'np\.sum\(w\[:-1\] \* delta_xi\)', 'np.sum(w[1:] * delta_xi)', ['C01', 'C02']),
+    ('kernel-end+1', 'match.py', r'\n        end = end \+ 1\n', '\n', ['C01', 'C02', 'C03']),
+    ('kernel-alpha2', 'match.py', r'/ delta_x\) \*\* alpha', '/ delta_x) ** 2', ['C03']),
+    ('kernel-centre', 'match.py', r'x_n2 = \(x\[-1\] \+ x\[0\]\) / 2', 'x_n2 = x[len(x) // 2]', ['C03', 'C01']),
+    ('kernel-mult', 'match.py', r'res_y = y \+ y_hat \* w', 'res_y = y * (1 + y_hat * w)', ['C01', 'C03']),
+    ('match-swap-methods', 'weaver.py', r'target_function_integral_method=target_function_integral_method,',
+     'target_function_integral_method=reference_function_integral_method,', ['C02']),
+    ('rect-rule', 'sorted_array_utils.py', r'return y\[:-1\] \* d\b', 'return y[1:] * d', ['C01', 'C17']),
+    ('linfit-denom', 'funfit.py', r'return y_0 \+ \(y_1 - y_0\) \* \(x - x_0\) / \(x_1 - x_0\)', 'return y_0 + (y_1 - y_0) * (x - x_0) / x_1', ['C06', 'C07']),
+    ('expfit-alpha', 'funfit.py', r'\(\(x - x_0\) / \(x_1 - x_0\)\) \*\* alpha', '((x - x_0) / (x_1 - x_0)) ** 2', ['C06']),
+    ('fixed-range', 'rfa.py', r'for i in range\(0, self\.a_l\):', 'for i in range(0, self.a_l + 1):', ['C05']),
+    ('fixed-al', 'rfa.py', r'self\.a_l = int\(self\.a / 2\)\n        self\.a_r = self\.a_l\n\n    def rfa\(self\):\n        x, y = self\._initial_oversample\(\)\n        n = self\.n\n        a_r',
+     'self.a_l = int(self.a / 2) + 1\n        self.a_r = self.a_l\n\n    def rfa(self):\n        x, y = self._initial_oversample()\n        n = self.n\n        a_r', ['C05']),
+    ('adaptive-abs', 'rfa.py', r'nom = abs\(y\[k \+ 1, 0\] - y\[k, 0\]\)', 'nom = y[k + 1, 0] - y[k, 0]', ['C06', 'C07']),
+    ('adaptive-swap', 'rfa.py', r'gamma = nom / denom\n', 'gamma = denom / nom\n', ['C06']),
+    ('adaptive-k2', 'rfa.py', r'denom = abs\(y\[k, 0\] - y\[k - 1, 0\]\)', 'denom = abs(y[k, 0] - y[k - 2, 0])', ['C06', 'C07']),
+    ('rfa-cut', 'rfa.py', r'return x\.array\[n:-n\], z\.array\[n:-n\]\n\n\nclass LinearAdaptiveRFA', 'return x.array[n:-n + 1], z.array[n:-n + 1]\n\n\nclass LinearAdaptiveRFA', ['C04', 'C02']),
+    ('rfa-nguard', 'rfa.py', r'if n < 2:\n            raise ValueError\("n cannot be lower than 2\."\)', 'if n < 1:\n            raise ValueError("n cannot be lower than 2.")', ['C04', 'C20']),
+    ('exp-omitted', 'rfa.py', r'\(x\[k, a_l\], y_0\), alpha=exp, \)', '(x[k, a_l], y_0), )', ['C06']),
+    ('shift-ref', 'weaver.py', r'\n        self\.reference_x = self\.reference_x \+ shift\n', '\n', ['C08']),
+    ('repeat-ref', 'weaver.py', r'repeat\(self\.reference_x, self\.reference_y, repeats=n\)', 'repeat(self.reference_x, self.reference_y, repeats=n + 1)', ['C08', 'C12']),
+    ('normalize-swap', 'weaver.py', r'self\.reference_x = normalize\(self\.reference_x, min_val, max_val\)', 'self.reference_x = normalize(self.reference_x, max_val, min_val)', ['C08', 'C14']),
+    ('smooth-ref', 'weaver.py', r'self\.y = spline_smooth\(self\.x, self\.y, s=s\)\(self\.x\)', 'self.reference_y = self.y = spline_smooth(self.x, self.y, s=s)(self.x)', ['C08']),
+    ('init-alias', 'weaver.py', r'self\.original_y = self\.y\.copy\(\)', 'self.original_y = self.y', ['C09']),
+    ('restore-nocopy', 'weaver.py', r'self\.x = self\.original_x\.copy\(\)\n        self\.y = self\.original_y\.copy\(\)\n        self\.reference_x',
+     'self.x = self.original_x\n        self.y = self.original_y.copy()\n        self.reference_x', ['C09']),
+    ('trend-asarray', 'process.py', r'y = np\.array\(y, dtype=np\.float64\)\n    range_x', 'y = np.asarray(y, dtype=np.float64)\n    range_x', ['C09']),
+    ('interp-list', 'weaver.py', r'\n            new_x = np\.asarray\(new_x\)\n', '\n', ['C09']),
+    ('scan-lower-adv', 'sorted_array_utils.py', r'x_next_val <= lookup_val', 'x_next_val < lookup_val', ['C10', 'C11', 'C13', 'C01']),
+    ('scan-higher-res', 'sorted_array_utils.py', r'            indices\[lookup_idx\] = x_idx \+ 1\n        lookup_val = next\(lookup_it, None\)\n        lookup_idx \+= 1\n    return indices\n\n\ndef find_closest_lower_or',
+     '            indices[lookup_idx] = x_idx\n        lookup_val = next(lookup_it, None)\n        lookup_idx += 1\n    return indices\n\n\ndef find_closest_lower_or', ['C10', 'C11']),
+    ('scan-tie', 'sorted_array_utils.py', r'lookup_val - x_val <= x_next_val - lookup_val', 'lookup_val - x_val < x_next_val - lookup_val', ['C10', 'C01', 'C02']),
+    ('dispatch-cross', 'sorted_array_utils.py', r"elif strategy == 'lower':\n        return find_closest_lower_equal", "elif strategy == 'lower':\n        return find_closest_higher_equal", ['C10']),
+    ('truncate-plus1', 'process.py', r'fill_not_valid=True\)\[0\] \+ 1\n', 'fill_not_valid=True)[0]\n', ['C11']),
+    ('truncate-guard', 'process.py', r'if x_left >= x_right:', 'if x_left > x_right:', ['C20']),
+    ('tbi-guard', 'weaver.py', r'        if stop > len\(self\.x\):\n            raise ValueError\("Stop index should be less than length of x"\)\n        self\.x = self\.x\[start:stop\]',
+     '        self.x = self.x[start:stop]', ['C20']),
+    ('repeat-range', 'process.py', r'for i in range\(1, repeats\):', 'for i in range(repeats):', ['C12']),
+    ('repeat-step', 'process.py', r'x\[n \* i - 1\] - x\[n \* i - 2\]\)', 'x[n * i - 1] - x[n * i - 3])', ['C12']),
+    ('repeat-ytile', 'process.py', r'    y = np\.tile\(y, repeats\)\n', '    y = np.tile(y, repeats + 0) * 1.0\n', []),
+    ('interp-swap', 'process.py', r'np\.interp\(new_x, x, y, \*\*kwargs\)', 'np.interp(x, new_x, y, **kwargs)', ['C13']),
+    ('interp-cubic', 'process.py', r"elif method == 'cubic':\n        return CubicSpline\(x, y, \*\*kwargs\)\(new_x\)", "elif method == 'cubic':\n        return BSpline(*splrep(x, y, **kwargs))(new_x)", ['C13']),
+    ('grid-ends-and', 'weaver.py', r'if new_x\[0\] != self\.x\[0\] or new_x\[-1\] != self\.x\[-1\]:', 'if new_x[0] != self.x[0] and new_x[-1] != self.x[-1]:', ['C20']),
+    ('grid-n+1', 'weaver.py', r'np\.linspace\(self\.x\[0\], self\.x\[-1\], n\)', 'np.linspace(self.x[0], self.x[-1], n + 1)', ['C13']),
+    ('pwc-higher', 'process.py', r'indices = find_closest_lower_equal_element_indices_to_values\(x, new_x\)', 'indices = find_closest_higher_equal_element_indices_to_values(x, new_x)', ['C13']),
+    ('trend-assign', 'process.py', r'y\[i\] \+= fun\(x\[i\]\)\n', 'y[i] = fun(x[i])\n', ['C14']),
+    ('trend-norm', 'process.py', r'fun\(x\[i\] / range_x\)', 'fun(x[i] / x[-1])', ['C14']),
+    ('normalize-plus', 'process.py', r'\* \(max_val - min_val\) \+ min_val', '* (max_val + min_val) + min_val', ['C14']),
+    ('noise-power', 'process.py', r'sp = np\.mean\(a\*\*2\)', 'sp = np.mean(a)**2', ['C15']),
+    ('noise-db20', 'process.py', r'10 \*\* \(snr / 10\)', '10 ** (snr / 20)', ['C15']),
+    ('noise-branches', 'process.py', r'if snr_in_db is True:', 'if snr_in_db is False:', ['C15']),
+    ('smooth-truthy', 'process.py', r'    if s is None:\n        s = len\(y\) \* np\.std\(y\) \*\* 2', '    if not s:\n        s = len(y) * np.std(y) ** 2', ['C16']),
+    ('smooth-positional', 'process.py', r'splrep\(x, y, s=s\)', 'splrep(x, y, s)', ['C16']),
+    ('smooth-degree', 'process.py', r'splrep\(x, y, s=s\)', 'splrep(x, y, k=s)', ['C16']),
+    ('smooth-refx', 'weaver.py', r'spline_smooth\(self\.x, self\.y, s=s\)\(self\.x\)', 'spline_smooth(self.x, self.y, s=s)(self.reference_x)', ['C16', 'C09']),
+    ('ext-right', 'sorted_array_utils.py', r'np\.linspace\(a\[-1\], rstop, n \+ 1\)\[1:\]', 'np.linspace(a[-1], rstop, n + 1)[:-1]', ['C17', 'C04']),
+    ('ext-mirror', 'sorted_array_utils.py', r'lstart = 2 \* a\[0\] - a\[n\]', 'lstart = 2 * a[0] - a[n - 1]', ['C17', 'C04']),
+    ('setitem-idx', 'interval.py', r'self\.a\[interval \* self\.n \+ element\] = value', 'self.a[interval * self.n + element + 1] = value', ['C17']),
+    ('pad-head', 'interval.py', r'\(0, m \* n - self\.a\.size\)', '(m * n - self.a.size, 0)', ['C17']),
+    ('average-axis', 'process.py', r'to_2d_array\(\), axis=1\)', 'to_2d_array(), axis=0)', ['C17', 'C02']),
+    ('ds-slot', 'datasets/_mix_it.py', r'dataset_filename="mix-it-bologna_weekly"', 'dataset_filename="mix-it-bologna_daily"', ['C18', 'C19']),
+    ('ds-novalidate', 'datasets/_mix_it.py', r'dataset_filename="mix-it-bologna_daily",\n(\s+)dataset_folder=DATASET_FOLDER, validate_checksum=True',
+     'dataset_filename="mix-it-bologna_daily",\n\\1dataset_folder=DATASET_FOLDER, validate_checksum=False', ['C18', 'C19']),
+    ('ds-import', 'datasets/_datasets.py', r'    fetch_mix_it_milan_daily,\n', '', ['C18']),
+    ('cache-direct', 'datasets/_base.py', r'pickle\.dump\(dataset, open\(dataset_tmp_file_path, "wb"\)\)\n\s+os\.rename\(dataset_tmp_file_path, dataset_file_path\)',
+     'pickle.dump(dataset, open(dataset_file_path, "wb"))', ['C19']),
+    ('cache-tmpdir', 'datasets/_base.py', r'TemporaryDirectory\(dir=dataset_dir\)', 'TemporaryDirectory()', ['C19']),
+    ('retry-dec', 'datasets/_base.py', r'\n            n_retries -= 1', '', ['C19']),
+    ('retry-exc', 'datasets/_base.py', r'except \(URLError, TimeoutError\):', 'except Exception:', ['C19']),
+    ('checksum-after', 'datasets/_base.py', r'if remote\.checksum != checksum:', 'if remote.checksum != checksum and False:', ['C19']),
+    ('slice-notfound', 'weaver.py', r'if len\(start_indices\) == 0:\n                raise ValueError\("Start value not found in x"\)', 'if len(start_indices) == 0:\n                raise IndexError("Start value not found in x")', ['C20']),
+    ('interp-commit', 'weaver.py', r'        self\.y = interpolate\(self\.x, self\.y, new_x, method=method, \*\*kwargs\)\n        self\.x = new_x',
+     '        old_x, self.x = self.x, new_x\n        self.y = interpolate(old_x, self.y, new_x, method=method, **kwargs)', ['C20']),
+]
 
 
-def run_for_property(pid, root, jobs, ctx):
-    return {'selftest': 'corpus not built yet'}
+def prefix_patches() -> List[Tuple[str, str, List[str]]]:
+    d = os.path.join(HERE, 'selftest', 'prefix')
+    out = []
+    if os.path.isdir(d):
+        for fn in sorted(os.listdir(d)):
+            if fn.endswith('.diff'):
+                meta = os.path.join(d, fn[:-5] + '.json')
+                exp = json.load(open(meta)).get('must_fire', []) if os.path.exists(meta) else []
+                out.append(('prefix:' + fn[:-5], os.path.join(d, fn), exp))
+    return out
+
+
+def seeded_patches() -> List[Tuple[str, str, List[str], List[str]]]:
+    d = os.path.join(HERE, 'seeded')
+    out = []
+    if os.path.isdir(d):
+        for sid in sorted(os.listdir(d)):
+            mp = os.path.join(d, sid, 'meta.json')
+            pp = os.path.join(d, sid, 'patch.diff')
+            if os.path.exists(mp) and os.path.exists(pp):
+                m = json.load(open(mp))
+                fire = [p for p, v in m.get('detected_by', {}).items() if v == 'VIOLATION']
+                err = [p for p, v in m.get('detected_by', {}).items() if v != 'VIOLATION']
+                out.append(('seeded:' + sid, pp, fire, err))
+    return out
+
+
+def benign_patches() -> List[Tuple[str, str, List[str]]]:
+    d = os.path.join(HERE, 'benign')
+    out = []
+    if os.path.isdir(d):
+        for bid in sorted(os.listdir(d)):
+            pp = os.path.join(d, bid, 'patch.diff')
+            mp = os.path.join(d, bid, 'meta.json')
+            if os.path.exists(pp):
+                exc = json.load(open(mp)).get('not_silent_for', []) if os.path.exists(mp) else []
+                out.append(('benign:' + bid, pp, exc))
+    return out
+
+
+# --------------------------------------------------------------------------- computed benign variants
+class _Rename(ast.NodeTransformer):
+    """rename the local variables of every function (not parameters, not attributes, not globals)"""
+
+    def __init__(self, module_names):
+        self.module_names = module_names
+
+    def visit_FunctionDef(self, node: ast.FunctionDef):
+        params = {a.arg for a in node.args.posonlyargs + node.args.args + node.args.kwonlyargs}
+        if node.args.vararg:
+            params.add(node.args.vararg.arg)
+        if node.args.kwarg:
+            params.add(node.args.kwarg.arg)
+        stored = set()
+        for n in ast.walk(node):
+            if isinstance(n, ast.Name) and isinstance(n.ctx, ast.Store):
+                stored.add(n.id)
+            elif isinstance(n, (ast.Global, ast.Nonlocal)):
+                return node
+            elif isinstance(n, (ast.FunctionDef, ast.Lambda, ast.ListComp, ast.GeneratorExp, ast.SetComp, ast.DictComp, ast.ClassDef)) and n is not node:
+                return node        # nested scopes: leave the function alone
+        locals_ = {s for s in stored if s not in params and s not in self.module_names and not s.startswith('__')}
+        mapping = {s: s + '_lv' for s in locals_}
+
+        class R(ast.NodeTransformer):
+            def visit_Name(self, n):
+                if n.id in mapping:
+                    return ast.copy_location(ast.Name(mapping[n.id], n.ctx), n)
+                return n
+        node.body = [R().visit(s) for s in node.body]
+        return node
+
+
+def computed_variant(kind: str, root: str):
+    src = os.path.join(root, 'src', 'traffic_weaver')
+    for dp, dn, fns in os.walk(src):
+        for fn in fns:
+            if not fn.endswith('.py'):
+                continue
+            p = os.path.join(dp, fn)
+            text = open(p, encoding='utf-8').read()
+            tree = ast.parse(text)
+            if kind == 'rename-locals':
+                names = {n.name for n in tree.body if isinstance(n, (ast.FunctionDef, ast.ClassDef))}
+                for n in tree.body:
+                    if isinstance(n, (ast.Import, ast.ImportFrom)):
+                        names |= {(a.asname or a.name).split('.')[0] for a in n.names}
+                    elif isinstance(n, ast.Assign):
+                        names |= {t.id for t in n.targets if isinstance(t, ast.Name)}
+                tree = _Rename(names).visit(tree)
+                ast.fix_missing_locations(tree)
+            open(p, 'w', encoding='utf-8').write(ast.unparse(tree) + '\n')
+
+
+# --------------------------------------------------------------------------- runner
+def _copy_tree(root: str) -> str:
+    base = '/dev/shm' if os.path.isdir('/dev/shm') else tempfile.gettempdir()
+    d = tempfile.mkdtemp(prefix=f'twverif-{os.getpid()}-', dir=base)
+    r = os.path.join(d, 'repo')
+    os.makedirs(r)
+    shutil.copytree(os.path.join(root, 'src'), os.path.join(r, 'src'), ignore=shutil.ignore_patterns('__pycache__', '*.egg-info'))
+    if os.path.exists(os.path.join(root, 'pyproject.toml')):
+        shutil.copy(os.path.join(root, 'pyproject.toml'), r)
+    return d
+
+
+def _run_variant(args) -> dict:
+    vid, kind, payload, pid, root = args
+    d = _copy_tree(root)
+    try:
+        r = os.path.join(d, 'repo')
+        if kind == 'operator':
+            fn, rx, rep = payload
+            p = os.path.join(r, PKG, fn)
+            if not os.path.exists(p):
+                return {'id': vid, 'status': 'skipped', 'why': 'file missing'}
+            text = open(p, encoding='utf-8').read()
+            new, n = re.subn(rx, rep, text, count=1)
+            if n != 1 or new == text:
+                return {'id': vid, 'status': 'skipped', 'why': 'edit site not found'}
+            try:
+                ast.parse(new)
+            except SyntaxError:
+                return {'id': vid, 'status': 'skipped', 'why': 'variant does not parse'}
+            open(p, 'w', encoding='utf-8').write(new)
+        elif kind == 'patch':
+            q = subprocess.run(['patch', '-p1', '-s', '--no-backup-if-mismatch', '-i', payload], cwd=r, capture_output=True, text=True)
+            if q.returncode != 0:
+                return {'id': vid, 'status': 'skipped', 'why': 'patch does not apply to the current tree'}
+        elif kind == 'computed':
+            computed_variant(payload, r)
+        q = subprocess.run([sys.executable, os.path.join(HERE, 'check.py'), pid, '--root', r, '--no-evidence'], capture_output=True, text=True, timeout=600)
+        first = ''
+        for line in q.stdout.splitlines():
+            if line.startswith('--- ') or line.startswith('ANALYSIS-ERROR'):
+                first = line[:200]
+                break
+        return {'id': vid, 'status': 'ran', 'rc': q.returncode, 'first': first}
+    except subprocess.TimeoutExpired:
+        return {'id': vid, 'status': 'ran', 'rc': 2, 'first': 'timeout'}
+    finally:
+        shutil.rmtree(d, ignore_errors=True)
+
+
+def run_for_property(pid: str, root: str, jobs: int, ctx) -> dict:
+    base_clean = not any(o.status != 'ok' for o in ctx.obls)
+    work = []
+    expect: Dict[str, str] = {}
+    for oid, fn, rx, rep, fire in OPERATORS:
+        if pid in fire:
+            work.append((f"op:{oid}", 'operator', (fn, rx, rep), pid, root))
+            expect[f"op:{oid}"] = 'fire'
+    for vid, path, fire in prefix_patches():
+        if pid in fire:
+            work.append((vid, 'patch', path, pid, root))
+            expect[vid] = 'fire'
+    for vid, path, fire, err in seeded_patches():
+        if pid in fire:
+            work.append((vid, 'patch', path, pid, root))
+            expect[vid] = 'fire'
+    for vid, path, exc in benign_patches():
+        if pid not in exc:
+            work.append((vid, 'patch', path, pid, root))
+            expect[vid] = 'silent'
+    for kind in ('ast-roundtrip', 'rename-locals'):
+        work.append((f"computed:{kind}", 'computed', kind, pid, root))
+        expect[f"computed:{kind}"] = 'silent'
+    results = []
+    with cf.ProcessPoolExecutor(max(1, min(jobs, 16))) as ex:
+        for r in ex.map(_run_variant, work):
+            results.append(r)
+    bad = []
+    counts = {'violating': 0, 'fired': 0, 'benign': 0, 'silent': 0, 'skipped': 0}
+    for r in results:
+        e = expect[r['id']]
+        if r['status'] == 'skipped':
+            counts['skipped'] += 1
+            continue
+        if e == 'fire':
+            counts['violating'] += 1
+            if r['rc'] == 1:
+                counts['fired'] += 1
+            else:
+                bad.append(f"{r['id']}: expected a VIOLATION, got exit {r['rc']} {r.get('first', '')}")
+        else:
+            counts['benign'] += 1
+            if r['rc'] == 0:
+                counts['silent'] += 1
+            else:
+                bad.append(f"{r['id']}: expected silence, got exit {r['rc']} {r.get('first', '')}")
+    summary = {'selftest': counts, 'selftest_failures': bad[:20],
+               'selftest_samples': [f"{r['id']} -> {'skipped: ' + r.get('why', '') if r['status'] == 'skipped' else 'exit ' + str(r['rc'])}" for r in results][:60],
+               'selftest_rule': 'violating variants (operator mutants, re-introduced repaired defects, independently seeded changes) must give exit 1; benign variants '
+                                '(confirmed refactorings, ast round trip, local renaming) must give exit 0; variants that do not apply are skipped'}
+    if bad and base_clean:
+        for b in bad:
+            print(f"SELFTEST-FAILURE property={pid} {b}")
+        ctx.unknown('selftest', f"{len(bad)} corpus expectation(s) failed", '; '.join(bad[:5]), '', '', 'selftest')
+    else:
+        print(f"selftest {pid}: {counts}")
+    ctx.rule('selftest', 'checker self-test: every violating variant of the corpus fires, every benign variant is silent (a failure is the checker\'s fault: exit 2)')
+    return summary
